@@ -252,10 +252,9 @@ func runC05(t *testing.T, p *Plan) *Outcome {
 				}
 				continue
 			}
-			k := dice.Next(len(parked))
-			tk := parked[k]
+			tk, stuck := PickFair(parked, dice.Next(len(parked)), 300)
 			s.noteChoice(len(parked), tk.Site)
-			if strings.HasPrefix(tk.Site, "spin:") && tk.Spins > 300 {
+			if stuck {
 				panicSig = "C05/livelock/" + tk.Site
 				o.Detail = fmt.Sprintf("task t%d has spun %d times at %s and nothing else can change the flag", tk.ID, tk.Spins, tk.Site)
 				return
